@@ -24,7 +24,7 @@ CHECKS = {
    note="trusted: the downstream stub's reading of the net/http contract; the blocking model (token rules and limit arithmetic); only deny and body-limit interruptions"),
  "C19": dict(cat="exploration", design="DESIGN.md §4 C19",
    technique="deterministic simulation: decision-table scenarios on a recording writer, and scheduler-interleaved transactions on the real serial/concurrent writers over a simulated disk and clock, under the race detector",
-   text="Part 1 draws audit engine (configured and ctl-switched), relevant-status pattern, parts, format, log/nolog/auditlog/noauditlog combinations, interruptions and engine modes and compares record count, well-formedness, listed rules and error-callback multiplicity with a reference decision function written from the statement. Part 2 interleaves 2-6 tasks finishing transactions on one WAF whose real serial or concurrent writer writes to the simulated disk, with yields inside the writers and a simulated clock crossing minute/day boundaries; the files are parsed afterwards: whole records, each transaction exactly once, paths derived from timestamp and id, index entries not interleaved.",
+   text="Part 1 draws audit engine (configured and ctl-switched), relevant-status pattern, parts, format, log/nolog/auditlog/noauditlog combinations, interruptions and engine modes and compares record count, well-formedness, listed rules and error-callback multiplicity with a reference decision function written from the statement (in DetectionOnly the would-be status comes from a twin WAF running the same transaction with the engine On). Part 2 interleaves 2-6 tasks finishing transactions on one WAF whose real serial or concurrent writer writes to the simulated disk, with yields inside the writers and a simulated clock crossing minute/day boundaries; the files are parsed afterwards: whole records, each transaction exactly once, paths derived from timestamp and id, index entries not interleaved.",
    note="trusted: the reference decision function (RelevantOnly only with a pattern), JSON/native well-formedness parsers; parts algebra of ctl:auditLogParts not modelled"),
  "C06": dict(cat="exploration", design="DESIGN.md §4 C06",
    technique="deterministic simulation: seeded cooperative scheduler over real goroutines with race-detector-invisible hand-over; race detector + per-transaction differential oracle",
@@ -48,11 +48,11 @@ CHECKS = {
    note="trusted: transformation functions (pure, C14), the twin-rule trick that reveals selected values"),
  "C20": dict(cat="fault_enumeration", design="DESIGN.md §4 C20",
    technique="deterministic simulation with systematic fault injection: every disk operation of a recorded run fails in turn, every early-termination point; random multi-fault runs in thorough",
-   text="For each generated transaction the disk operation log of a fault-free run is enumerated exhaustively: every operation fails with every applicable fault kind, and the transaction is abandoned after every API call. Oracle: no panic, the failure is visible (returned error, error variable, Close error or log entry), legal short reads change nothing, no temp file remains after Close, the recycled object behaves like a fresh one. Enumeration is exhaustive per scenario; scenarios are sampled.",
+   text="For each generated transaction the disk operation log of a fault-free run is enumerated exhaustively: every operation fails with every applicable fault kind, and the transaction is abandoned after every API call. Oracle: no panic, the failure is visible (returned error, error variable, Close error or log entry), legal short reads change nothing, no temp file remains after Close, the recycled object behaves like a fresh one and is handed to one transaction at a time even after Close was called twice; a body over the limit surfaces however its slices fall. Enumeration is exhaustive per scenario; scenarios are sampled.",
    note="trusted: simos fault semantics; configuration-time operations are not fault points; warn-level log entries count as visible"),
  "C04": dict(cat="exploration", design="DESIGN.md §4 C04",
    technique="deterministic simulation: simulator-chosen map iteration order and pool reuse, differential against canonical-order reference",
-   text="Seeded search over the two hidden schedulers that can make a transaction's outcome vary: every map iteration in coraza asks the simulator for an order (rotation / full shuffle) and the transaction pool is forced to recycle objects; each generated (configuration, request) is run N times and compared with the canonical-order run. Exploration is the right level: the space of orders is factorial and the defect class needs an unlucky order plus a rule shape that observes it.",
+   text="Seeded search over the two hidden schedulers that can make a transaction's outcome vary: every map iteration in coraza asks the simulator for an order (rotation / full shuffle) and the transaction pool is forced to recycle objects; each generated (configuration, request) is run N times and compared with the canonical-order run made under a pool that never recycles (every sync.Pool of the library is a scheduler decision, too). Sampled runs are repeated in a fresh process and one worker never resets the process-wide tables (aged process), so that dependence on the history of the process is seen as well. Exploration is the right level: the space of orders is factorial and the defect class needs an unlucky order plus a rule shape that observes it.",
    note="trusted: simgen's range rewrite (MapRange visits exactly the live keys), the outcome normaliser; a shuffle is stronger than today's runtime (language allows any order)"),
  "C10": dict(cat="exploration", design="DESIGN.md §4 C10",
    technique="deterministic simulation: scripted body streams + simulated spill disk, checked against a reference buffer model",
